@@ -13,7 +13,7 @@ static bool gen_c10(uint64_t seed, const std::string &tier, uint64_t i, Plan &p)
   base_knobs(r, p, false);
   p.knobs.set("oracles", oracle_list({"c10"}));
   // (names cover both ends of the alphabet, digits and hyphens: case folding is per character)
-  static const std::vector<std::string> doms = {"a.example", "b.example", "sub.a.example", "deep.sub.a.example", "c.test", "x.c.test", "fax", "host.fax", "sim.example", "zone.example", "az-09.zz", "sub.zone.example"};
+  static const std::vector<std::string> doms = {"a.example", "b.example", "sub.a.example", "deep.sub.a.example", "c.test", "x.c.test", "fax", "host.fax", "sim.example", "zone.example", "az-09.zz", "sub.zone.example", "caf\xe9.example", "\xff\x80.zz"};
   auto gen_conf = [&](Json &conf) {
     Json loc = Json::arr(); std::set<std::string> used;
     int nl = (int)r.range(0, 3); for (int q = 0; q < nl; q++) { std::string d = r.pick(doms); if (used.insert(d).second) loc.push(mixcase(r, d)); }
@@ -57,6 +57,8 @@ static bool gen_c10(uint64_t seed, const std::string &tier, uint64_t i, Plan &p)
   p.ops.push(Json::obj().set("op", "boot"));
   int nmsg = (int)r.range(1, 3);
   bool hup = r.chance(0.4); int hup_at = (int)r.below((uint64_t)nmsg + 1);
+  // a reread that fails half-way (the daemon logs an alert): the old configuration stays in force, completely
+  if (hup && r.chance(0.35)) { Fault f; f.actor = "qmail-send"; f.call = r.pick(std::vector<CallId>{C_OPEN, C_READ}); f.path = r.chance(0.5) ? "/control/virtualdomains" : "/control/locals"; f.nth = 2; f.kind = "error"; f.err = r.pick(std::vector<int>{EIO, EACCES, ENOMEM}); p.faults.push_back(f); }
   auto do_hup = [&]() {
     Json c2 = Json::obj(); gen_conf(c2);
     std::string l; for (auto &x : c2["locals"].a) l += x.str() + "\n"; std::string v; for (auto &x : c2["virtualdomains"].a) v += x.str() + "\n";
